@@ -6,6 +6,14 @@ the package's own reader (`_parse_fasta_files` / `_parse_protein`).
 Model: driver op `c18-mkdecoys` (text of the output file, given the permutations numpy drew).
 Spec: driver op `spec-C18` on (ground-truth targets, entries re-read from the implementation's
 output) — independent of the model; proved sound in `C18_spec_checker_sound(_sites)`.
+
+Added dimensions (GAPS-C18.md): (A) the stateful model `c18-run` receives the *ordered* list of
+`np.random.permutation` results and must reproduce the text *and* the number of generator calls
+(the `perms` dict, the retry loop); (B) enzymes that are not residue classes (multi-letter,
+look-behind, empty matches, anchors) with the sites computed here with `re` and handed to the
+model as a table, checked by the proved file-level checker `spec-C18-file`; (C) call forms
+(options omitted = documented defaults, positional, str/list/tuple of files); (D) an output file
+that already exists (stale content, or one of the inputs).
 """
 from __future__ import annotations
 
@@ -20,12 +28,15 @@ import tempfile
 import numpy as np
 
 import common
-from common import a_str, dec, req
+from common import Atom, a_bool, a_int, a_str, dec, req
 
 RULE = (
     "cases = one make_decoys call each (1-3 FASTA files, 1-8 records, multi-line/blank-line/CRLF layouts, "
     "sequence lengths 0..300 with emphasis on 0-8 and 69/70/71/139-141, 8 enzymes incl. negative look-ahead and "
-    "compiled regexes, 6 prefixes, shuffle/reverse, concatenate on/off, random global numpy RNG state); "
+    "compiled regexes, 11 enzymes that are no residue classes (multi-letter, look-behind, empty matches, anchors; "
+    "sites from `re` in the harness), 6 prefixes, shuffle/reverse, concatenate on/off, random global numpy RNG state, "
+    "options passed by keyword / positionally / omitted at their documented defaults, files as str/list/tuple, "
+    "output file absent / stale / one of the inputs); "
     "distinct = distinct (per-protein site lists, reverse, concat, enzyme); non-trivial = at least one peptide "
     "with an interior of >= 2 residues (something is actually permuted); every tier adds an exhaustive sweep "
     "over all sequences on the alphabet {K,P,A,B} up to a length bound x {[KR], [KR](?!P)} x {shuffle, reverse}"
@@ -42,6 +53,12 @@ ENZYMES = [
     ("R(?!P)", "R", "P"),
     ("[KR](?![PG])", "KR", "PG"),
 ]
+# enzymes that are NOT a residue class (optionally with look-ahead): only the enzyme-independent
+# clauses are promised; the sites are computed in the harness with `re` (not with the package)
+GENERAL_ENZYMES = ["KR", "[KR][^P]", "K|RR", "(?<=K)", "[KR]+", "K*", ".{5}", "^M", "$", "(?<=[KR])(?!P)", "(?i)k"]
+# the documented signature: make_decoys(fasta, out_file, decoy_prefix="decoy_", enzyme="[KR]", reverse=False,
+# concatenate=True); textwrap default width 70 — cross-checked against the model's constants (`c18-defaults`)
+DEFAULTS = dict(prefix="decoy_", regex="[KR]", reverse=False, concat=True, width=70)
 PREFIXES = ["decoy_", "decoy_", "rev_", "", "DECOY|", "##", "rév-"]
 AA = "ACDEFGHIKLMNPQRSTVWY"
 NAMECH = "ABCXYZabcxyz0123456789|_.:-#"
@@ -49,6 +66,7 @@ DESCCH = "ABCabc019 |_.:->=,;()[]\t"
 LENS = [0, 0, 1, 1, 2, 3, 4, 5, 6, 7, 8, 10, 12, 16, 20, 27, 35, 50, 68, 69, 70, 71, 72, 100, 139, 140, 141, 210, 300]
 logging.disable(logging.WARNING)  # `_parse_protein` warns about every empty sequence
 WS = set(" \t\n\r\x0b\x0c")
+QUICK = [True]   # set by main
 
 
 # ----------------------------------------------------------------------------
@@ -120,8 +138,24 @@ def layout(rng, name, seq, eol):
     return eol.join([head] + lines), len([l for l in lines if l]) > 1
 
 
+def gen_stale(rng):
+    """previous content of the output file"""
+    kind = rng.choice(["junk", "long", "fasta", "empty"])
+    if kind == "junk":
+        return "".join(rng.choice("xyz\n>#") for _ in range(rng.randint(1, 30)))
+    if kind == "long":   # longer than anything the call writes: a missing truncation leaves a tail
+        return "\n".join(">old%d\n%s" % (i, "W" * 70) for i in range(120)) + "\n"
+    if kind == "fasta":
+        return ">stale\nMKAAAAAAKBBBBR\n"
+    return ""
+
+
 def gen_case(rng, exotic_ok=True):
     regex, cut, block = rng.choice(ENZYMES)
+    enz_kind = "class"
+    if rng.random() < 0.18:
+        regex, cut, block, enz_kind = rng.choice(GENERAL_ENZYMES), "KR", "", "general"
+    call = rng.choice(["kw", "kw", "pos", "omit", "omit"])
     nfiles = rng.choice([1, 1, 1, 2, 2, 3])
     files, truth = [], []
     multiline = False
@@ -146,8 +180,20 @@ def gen_case(rng, exotic_ok=True):
         files=files, truth=truth, regex=regex, cut=cut, block=block, compiled=rng.random() < 0.2,
         prefix=rng.choice(PREFIXES), reverse=rng.random() < 0.4, concat=rng.random() < 0.6,
         npseed=rng.randrange(2 ** 32), klass="plain", eol="".join(sorted(set(repr(e)[1:-1] for e in eols))),
-        multiline=multiline,
+        multiline=multiline, enz_kind=enz_kind, call=call,
+        argform=rng.choice(["str", "list", "list", "tuple"]) if nfiles == 1 else rng.choice(["list", "tuple"]),
+        stale=gen_stale(rng) if rng.random() < 0.3 else None, out_is_input=rng.random() < 0.06,
     )
+    if call == "omit":
+        # options left out of the call take their documented defaults (each with probability 0.6; 13% all four)
+        if rng.random() < 0.6:
+            case["prefix"] = DEFAULTS["prefix"]
+        if rng.random() < 0.6:
+            case.update(regex=DEFAULTS["regex"], cut="KR", block="", compiled=False, enz_kind="class")
+        if rng.random() < 0.6:
+            case["reverse"] = DEFAULTS["reverse"]
+        if rng.random() < 0.6:
+            case["concat"] = DEFAULTS["concat"]
     if any(n == "" for n, _ in truth):
         # a header line that is just ">" is not a FASTA record with an identifier: like the other
         # edge inputs, the targets are whatever the reader makes of it (">" + end of text raises IndexError)
@@ -221,21 +267,43 @@ def run_impl(case, tmp):
         with open(p, "w", newline="", encoding="utf-8") as fh:
             fh.write(txt)
         paths.append(p)
-    out = os.path.join(tmp, "out.fasta")
-    if os.path.exists(out):
-        os.unlink(out)
+    out = paths[0] if case.get("out_is_input") else os.path.join(tmp, "out.fasta")
+    if not case.get("out_is_input"):
+        if os.path.exists(out):
+            os.unlink(out)
+        if case.get("stale") is not None:
+            with open(out, "w", newline="", encoding="utf-8") as fh:
+                fh.write(case["stale"])
     res = {}
     try:
         res["in_entries"] = [list(F._parse_protein(p)) for p in F._parse_fasta_files(paths)]
     except Exception as e:  # noqa: BLE001
         res["in_error"] = type(e).__name__
     enzyme = re.compile(case["regex"]) if case["compiled"] else case["regex"]
-    arg = paths[0] if (len(paths) == 1 and case["npseed"] % 2) else paths
+    form = case.get("argform")
+    if form is None:   # cases recorded before the call-form dimension existed
+        arg = paths[0] if (len(paths) == 1 and case["npseed"] % 2) else paths
+    else:
+        arg = paths[0] if (form == "str" and len(paths) == 1) else (tuple(paths) if form == "tuple" else paths)
+    call = case.get("call", "kw")
+    kwargs = dict(decoy_prefix=case["prefix"], enzyme=enzyme, reverse=case["reverse"], concatenate=case["concat"])
+    if call == "omit":
+        if case["prefix"] == DEFAULTS["prefix"]:
+            del kwargs["decoy_prefix"]
+        if case["regex"] == DEFAULTS["regex"] and not case["compiled"]:
+            del kwargs["enzyme"]
+        if case["reverse"] == DEFAULTS["reverse"]:
+            del kwargs["reverse"]
+        if case["concat"] == DEFAULTS["concat"]:
+            del kwargs["concatenate"]
+    res["omitted"] = 4 - len(kwargs)
     np.random.seed(case["npseed"])
     try:
         with DrawRecorder() as rec:
-            ret = mokapot.make_decoys(arg, out, decoy_prefix=case["prefix"], enzyme=enzyme,
-                                      reverse=case["reverse"], concatenate=case["concat"])
+            if call == "pos":
+                ret = mokapot.make_decoys(arg, out, case["prefix"], enzyme, case["reverse"], case["concat"])
+            else:
+                ret = mokapot.make_decoys(arg, out, **kwargs)
     except Exception as e:  # noqa: BLE001
         res["error"] = type(e).__name__
         return res
@@ -262,6 +330,25 @@ def sites_of(seq, cut, block):
     return [0] + ends + [len(seq)]
 
 
+def ends_re(regex, seq):
+    """`[m.end() for m in finditer]` computed here (CPython `re` is trusted, the package is not called)"""
+    return [m.end() for m in re.compile(regex).finditer(seq)]
+
+
+def case_sites(c, seq):
+    if c.get("enz_kind", "class") == "general":
+        return [0] + ends_re(c["regex"], seq) + [len(seq)]
+    return sites_of(seq, c["cut"], c["block"])
+
+
+def enz_wire(c, targets):
+    """the enzyme as the model takes it: a residue class, or (any other regex) the table seq -> match ends"""
+    if c.get("enz_kind", "class") == "general":
+        seqs = sorted({s for _, s in targets})
+        return [Atom("table"), [[s, ends_re(c["regex"], s)] for s in seqs]]
+    return [Atom("class"), c["cut"], c["block"]]
+
+
 def in_scope(entries):
     """sequences for which the property promises a round trip: no blanks, no '>'"""
     return all(not (set(s) & WS) and ">" not in s for _, s in entries)
@@ -282,19 +369,40 @@ def eval_cases(chk, cases, light=False):
     model_targets = []
     for r in resp:
         model_targets.append(None if r.strip() == "reject-index" else [[a_str(n), a_str(s)] for n, s in dec1(r)])
-    lines, idx = [], []
+    lines, tags = [], []
     for k, (c, im) in enumerate(zip(cases, impl)):
         tg = c["truth"] if c["truth"] is not None else model_targets[k]
         if tg is None or "error" in im or "out_entries" not in im:
             continue
-        lines.append(req("c18-mkdecoys", perm_table(im["draws"]), c["prefix"], c["cut"], c["block"],
-                         c["reverse"], c["concat"], 70, c["files"]))
-        lines.append(req("spec-C18", c["prefix"], c["cut"], c["block"], c["reverse"], c["concat"], tg,
-                         im["out_entries"]))
-        idx.append(k)
+        general = c.get("enz_kind", "class") == "general"
+        if not general:
+            lines.append(req("c18-mkdecoys", perm_table(im["draws"]), c["prefix"], c["cut"], c["block"],
+                             c["reverse"], c["concat"], 70, c["files"]))
+            tags.append((k, "model"))
+            lines.append(req("spec-C18", c["prefix"], c["cut"], c["block"], c["reverse"], c["concat"], tg,
+                             im["out_entries"]))
+            tags.append((k, "spec"))
+        enz = enz_wire(c, tg)
+        old = None if (c.get("stale") is None or c.get("out_is_input")) else [c["stale"]]
+        if c.get("out_is_input"):
+            old = [c["files"][0]]
+        lines.append(req("c18-run", im["draws"], enz, c["prefix"], c["reverse"], c["concat"], DEFAULTS["width"],
+                         old, c["files"]))
+        tags.append((k, "run"))
+        if general or (not light and (c["npseed"] % 2 == 0 or not QUICK[0])):
+            # (residue classes are judged by `spec-C18`, which has the same clauses; the proved file-level
+            # checker is run on top of it for every second such case in the quick tier, for all in the thorough
+            # tier, not in the exhaustive sweep)
+            lines.append(req("spec-C18-file", c["prefix"], enz, c["reverse"], c["concat"], tg, im["out_entries"]))
+            tags.append((k, "specfile"))
+        if im.get("omitted") == 4:
+            lines.append(req("c18-run-default", im["draws"], old, c["files"]))
+            tags.append((k, "rundefault"))
     resp = common.driver_batch(lines)
-    model_out = {k: resp[2 * j] for j, k in enumerate(idx)}
-    spec_out = {k: resp[2 * j + 1].strip() for j, k in enumerate(idx)}
+    model_out, spec_out, run_out, specfile_out, rundef_out = {}, {}, {}, {}, {}
+    for (k, tag), r in zip(tags, resp):
+        {"model": model_out, "spec": spec_out, "run": run_out, "specfile": specfile_out,
+         "rundefault": rundef_out}[tag][k] = r.strip()
 
     for k, (c, im) in enumerate(zip(cases, impl)):
         mt = model_targets[k]
@@ -320,7 +428,8 @@ def eval_cases(chk, cases, light=False):
         if not in_scope(tg):
             chk.count("out-of-scope(blank or '>' inside a sequence)")
             continue
-        sites = [tuple(sites_of(s, c["cut"], c["block"])) for _, s in tg]
+        general = c.get("enz_kind", "class") == "general"
+        sites = [tuple(case_sites(c, s)) for _, s in tg]
         nontriv = any(b - a >= 4 for st in sites for a, b in zip(st, st[1:]))
         chk.case(None, (tuple(sites), c["reverse"], c["concat"], c["regex"]) if nontriv else None,
                  sample=None if light else dict(files=c["files"], enzyme=c["regex"], prefix=c["prefix"],
@@ -336,11 +445,20 @@ def eval_cases(chk, cases, light=False):
             chk.count("eol", c["eol"])
             chk.count("multiline", c["multiline"])
             chk.count("prefix", repr(c["prefix"]))
+            chk.count("enzyme_kind", c.get("enz_kind", "class"))
+            chk.count("call", c.get("call", "kw") + (f"(omitted={im.get('omitted')})" if c.get("call") == "omit" else ""))
+            chk.count("fasta_arg", c.get("argform") or "legacy")
+            chk.count("out_file", "is-input" if c.get("out_is_input") else
+                      ("absent" if c.get("stale") is None else
+                       ("stale-longer" if len(c["stale"]) > len(im.get("out_text", "")) else "stale-shorter")))
+            nd, nl = len(im.get("draws", [])), len({len(d) for d in im.get("draws", [])})
+            chk.count("generator_calls", nd if nd <= 3 else ("4-9" if nd < 10 else ("10-99" if nd < 100 else ">=100")))
+            chk.count("retry(identity drawn first)", nd > nl)
             for _, s in tg:
                 n = len(s)
                 chk.count("seqlen", n if n <= 8 else ("9-68" if n < 69 else (n if n <= 72 else
                           ("73-138" if n < 139 else (n if n <= 141 else ">141")))))
-                chk.count("has_cleavage_site", len(sites_of(s, c["cut"], c["block"])) > 2)
+                chk.count("has_cleavage_site", len(case_sites(c, s)) > 2)
         # ---- spec on the implementation's own output ----------------------------------------
         if "reread_error" in im:
             chk.spec_violation("reread-exception", dict(info, impl=im["out_text"], error=im["reread_error"],
@@ -356,18 +474,60 @@ def eval_cases(chk, cases, light=False):
             else:
                 chk.corr_break("c18-parse", dict(info, impl=im["in_entries"], model=mt))
             continue
-        sp = spec_out[k]
+        sp = spec_out[k] if not general else "ok"
         if sp != "ok":
             chk.spec_violation(sp + (":reverse" if c["reverse"] else ":shuffle"),
                                dict(info, impl=im["out_text"], impl_entries=im["out_entries"], expected=tg,
                                     clause=sp))
             continue
+        # the proved file-level checker (any enzyme: sites from the table; residue class: plus equal sites)
+        sf = specfile_out.get(k, "ok")
+        if sf in ("missing-sites", "bad-sites"):
+            # the harness' own site table is unusable (`re` reported overlapping/unordered matches): not a verdict
+            chk.corr_break("spec-C18-file:" + sf, dict(info, model=sf, enzyme=c["regex"]))
+            continue
+        if sf != "ok":
+            chk.spec_violation(sf + (":reverse" if c["reverse"] else ":shuffle"),
+                               dict(info, impl=im["out_text"], impl_entries=im["out_entries"], expected=tg,
+                                    clause=sf + " (file-level checker, sites of " + c["regex"] + ")"))
+            continue
         # ---- model ---------------------------------------------------------------------------
         if mt != tg:
             chk.corr_break("c18-parse", dict(info, impl=im["in_entries"], model=mt))
             continue
-        if any("-" in s for _, s in tg):
+        hyphen = any("-" in s for _, s in tg)
+        # stateful model: ordered generator calls in, text and number of calls out
+        ro = run_out[k]
+        if not ro.startswith("["):
+            chk.corr_break("c18-run", dict(info, impl=im["out_text"], model=ro, draws=im["draws"]))
+            continue
+        rtext, rcalls, rperm = dec(ro)
+        rtext, rcalls, rperm = a_str(rtext), a_int(rcalls), a_bool(rperm)
+        if not rperm:
+            chk.corr_break("c18-run:draw-not-a-permutation", dict(info, draws=im["draws"]))
+            continue
+        if rcalls != len(im["draws"]):
+            chk.corr_break("c18-run:generator-calls", dict(info, impl=len(im["draws"]), model=rcalls,
+                                                           draws=im["draws"][:20]))
+            continue
+        if not hyphen and rtext != im["out_text"]:
+            chk.corr_break("c18-run", dict(info, impl=im["out_text"], model=rtext, draws=im["draws"][:20]))
+            continue
+        if k in rundef_out:
+            chk.count("all-defaults call compared with makeDecoysDefault")
+            rd = rundef_out[k]
+            if not rd.startswith("["):
+                chk.corr_break("c18-run-default", dict(info, impl=im["out_text"], model=rd))
+                continue
+            dtext, dcalls = dec(rd)
+            if a_int(dcalls) != len(im["draws"]) or (not hyphen and a_str(dtext) != im["out_text"]):
+                chk.corr_break("c18-run-default", dict(info, impl=im["out_text"], model=a_str(dtext),
+                                                       calls=[len(im["draws"]), a_int(dcalls)]))
+                continue
+        if hyphen:
             chk.count("hyphen: text not compared (textwrap breaks at hyphens), spec only")
+            continue
+        if general:
             continue
         mo = model_out[k].strip()
         if not mo.startswith("s"):
@@ -384,13 +544,16 @@ def dec1(line):
 def exhaustive(chk, nmax):
     alpha = "KPAB"
     total = 0
-    for regex, cut, block in (("[KR]", "KR", ""), ("[KR](?!P)", "KR", "P")):
+    # the two-letter enzyme `KP` and the look-behind `(?<=K)` (empty matches) are swept two lengths shorter
+    for regex, cut, block, kind in (("[KR]", "KR", "", "class"), ("[KR](?!P)", "KR", "P", "class"),
+                                    ("KP", "KR", "", "general"), ("(?<=K)", "KR", "", "general")):
         for reverse in (False, True):
-            seqs = ["".join(t) for n in range(0, nmax + 1) for t in itertools.product(alpha, repeat=n)]
+            top = nmax if kind == "class" else nmax - 2
+            seqs = ["".join(t) for n in range(0, top + 1) for t in itertools.product(alpha, repeat=n)]
             # longer interiors: pad the enumerated pattern with distinguishable residues
+            cases = []
             for i in range(0, len(seqs), 400):
                 chunk = seqs[i:i + 400]
-                cases = []
                 for j in range(0, len(chunk), 40):
                     part = chunk[j:j + 40]
                     truth = [[f"p{i + j + q}", s] for q, s in enumerate(part)]
@@ -398,11 +561,15 @@ def exhaustive(chk, nmax):
                     cases.append(dict(files=[text], truth=truth, regex=regex, cut=cut, block=block, compiled=False,
                                       prefix="decoy_", reverse=reverse, concat=(i // 400) % 2 == 0,
                                       npseed=(i * 7919 + j) % (2 ** 32), klass="exhaustive", eol="\\n",
-                                      multiline=False))
-                eval_cases(chk, cases, light=True)
+                                      multiline=False, enz_kind=kind, call="kw", argform="list",
+                                      stale=None, out_is_input=False))
                 total += len(chunk)
+                if len(cases) >= 100 or i + 400 >= len(seqs):   # same cases as before, fewer driver start-ups
+                    eval_cases(chk, cases, light=True)
+                    cases = []
     chk.extra["exhaustive_sweep"] = (
-        f"all sequences over {{K,P,A,B}} of length <= {nmax} x {{[KR], [KR](?!P)}} x {{shuffle, reverse}}: "
+        f"all sequences over {{K,P,A,B}} of length <= {nmax} x {{[KR], [KR](?!P)}} (<= {nmax - 2} x {{KP, (?<=K)}}) "
+        f"x {{shuffle, reverse}}: "
         f"{total} proteins in batches of 40 per make_decoys call"
     )
 
@@ -483,6 +650,11 @@ def main(chk, args):
         chk.finish(build, RULE)
     rng = chk.rng
     quick = chk.tier == "quick"
+    QUICK[0] = quick
+    # the defaults written in this file (from the documented signature) are the ones the model has
+    dpre, dcut, dw = dec(common.driver_batch([req("c18-defaults")])[0])
+    if (a_str(dpre), a_str(dcut), a_int(dw)) != (DEFAULTS["prefix"], "KR", DEFAULTS["width"]):
+        chk.corr_break("c18-defaults", dict(model=[a_str(dpre), a_str(dcut), a_int(dw)], harness=DEFAULTS))
     cases = corpus_cases()
     cases += [gen_case(rng) for _ in range(2500 if quick else 25000)]
     for i in range(0, len(cases), 500):
@@ -496,6 +668,11 @@ def main(chk, args):
         "`textwrap.wrap(seq)` is modelled as chunks of 70 for sequences without blanks and hyphens; sequences with "
         "hyphens are checked against the spec only; sequences with blanks or '>' are outside the property",
         "files are written and read as UTF-8 text; text-mode newline translation is part of the model (univNL)",
+        "`np.random.permutation` is the only source of randomness of the call: its results are handed to the stateful "
+        "model in call order, which must consume exactly as many as were made (perms dict, retry loop)",
+        "for enzymes that are no residue class the match ends are computed in the harness with CPython `re` "
+        "(`[m.end() for m in finditer]`) and checked by the driver to be non-decreasing and inside the sequence "
+        "(hypothesis EndsOK of the theorems)",
     ]
     chk.finish(build, RULE, search=search, lc=lc,
                trusted_extra=["CPython str.split/splitlines/join, re (residue-class regexes with optional negative "
